@@ -254,4 +254,73 @@ theorem merge_step_truth (t day : Nat) (ht : t < END) (hm : t % (Fu.MARK + 1) = 
   rw [mergeFile_conflict_free_eq day mine others truth (fun c hc => (hcf c hc).1) htruth (fun c hc => (hcf c hc).2),
     mergedTruth_eq_truth _ _ _ hnew]
 
+/-- the stamp of a merge-mode replay carries the mark, whatever author it packs -/
+theorem pack_mark (pn author : Nat) : pack pn author MARK % (Fu.MARK + 1) = Fu.MARK := by
+  unfold pack
+  split
+  · decide
+  · have h1 : (Fu.MARK + 1) = 2 ^ 14 := by decide
+    rw [h1, Nat.or_mod_two_pow, Nat.shiftLeft_eq, Nat.mul_mod_left]
+    decide
+
+/-- **the same step on the multi-branch model** (`doEdit`, the function `kdag` compares with `handleModification` of the real
+    `BurndownAnalysis` in merge mode): the edit of a tracked file on branch `b` during the replay of a merge commit reports
+    nothing and leaves on `b`, under the file's name, a copy that is conflict-free with respect to
+    `rebuild script (flat f) ins` -/
+theorem doEdit_merge_conflict_free (w w' : W) (b author name oldL newL : Nat) (script : List (EK × Nat)) (f : List Node)
+    (ht : pack w.pn author MARK < END) (hwf : WF2 f)
+    (ins : List Nat) (hc : consumed script = (flat f).length) (hi : insCount script = ins.length)
+    (h : doEdit true w b author MARK name oldL newL script f = .ok w') :
+    w'.evs = w.evs ∧ ∃ f', brFile (w'.br b) name = some f' ∧ WF2 f' ∧
+      (flat f').length = (rebuild script (flat f) ins).length ∧
+      ∀ i (hi : i < (rebuild script (flat f) ins).length),
+        isMark ((flat f').getD i 0) = true ∨ (flat f').getD i 0 = (rebuild script (flat f) ins)[i] := by
+  unfold doEdit at h
+  split at h
+  · cases h
+  · split at h
+    · cases h
+    · rename_i us htr
+      split at h
+      · cases h
+      · rename_i f' evs' happ
+        split at h
+        · cases h
+        · simp only [Except.ok.injEq] at h
+          subst h
+          obtain ⟨h1, h2, h3, h4⟩ := replay_conflict_free (pack w.pn author MARK) ht (pack_mark w.pn author) f hwf script us htr
+            ins hc hi w.evs f' evs' happ
+          refine ⟨h1, f', ?_, h2, h3, h4⟩
+          simp only [br_evs]
+          rw [br_setBr_same]
+          simp [brFile_brSet]
+
+/-- a file that the merge commit has and this parent has not: the merge-mode insertion reports nothing and leaves a copy
+    made of marks only - conflict-free with respect to whatever the true array of that length is -/
+theorem doInsert_merge_conflict_free (w w' : W) (b author name lines : Nat)
+    (h : doInsert true true w b author MARK name lines = .ok w') :
+    w'.evs = w.evs ∧ ∃ f', brFile (w'.br b) name = some f' ∧ WF2 f' ∧ (flat f').length = lines ∧
+      ∀ v ∈ flat f', isMark v = true := by
+  unfold doInsert at h
+  simp only at h
+  split at h
+  · cases h
+  · simp only [Except.ok.injEq] at h
+    subst h
+    have hm := pack_mark w.pn author
+    obtain ⟨hwf, hflat⟩ := newFile_wf (pack w.pn author MARK) lines
+    refine ⟨?_, Fu.newFile (pack w.pn author MARK) lines, ?_, hwf, by rw [hflat]; simp, ?_⟩
+    · simp only [markMf, if_true]
+      show (w.evs ++ toEvs (Fu.emit _ _ _)) = w.evs
+      rw [emit_mark _ _ _ hm]
+      simp [toEvs]
+    · simp only [markMf, if_true]
+      show brFile ((w.setBr b (brSet (w.br b) name (Fu.newFile (pack w.pn author MARK) lines))).br b) name = _
+      rw [br_setBr_same]
+      simp [brFile_brSet]
+    · intro v hv
+      rw [hflat] at hv
+      rw [(List.mem_replicate.1 hv).2]
+      exact isMark_of_mod _ hm
+
 end Bd
